@@ -12,14 +12,16 @@ RULE = ("the knut binary built from the working tree, run in a materialised file
         "trees (single, flat, chain with ../ and ./, diamond, self-include, mutual include, inner cycle, missing file, "
         "directory, unreadable file, unparseable child, root in a subdirectory), half of them pushed onto a guard "
         "(transaction on 0001-01-01 or in year 0000, inverted or zero-dated accrual window, negative -m level/suffix, "
-        "inverted window, negative --last, empty journal, no transactions, price 0) through check/print/balance; "
+        "inverted window, negative --last, empty journal, no transactions, price 0) through check/print/balance and "
+        "(a third of them, same journal, tree, window, valuation and mapping) through transcode [-v V], portfolio weights "
+        "(csv or text, optional universe file incl. a commodity in two classes, mappings on class paths) and portfolio returns; "
         "(25%) arbitrary bytes, hostile fragments and byte-mutated journals through all commands; (25%) every flag "
         "absent/negative/huge/inverted/malformed on a valid journal; (9%) include graphs over raw files incl. 200-wide and "
         "300-deep ones; (1%) --digits of 5e8..2^31-1 and a daily accrual over years 1..9999.  Spec verdict (Spec.FailSpec.clean_run_b, extracted) on the "
         "observation: class in {OK, ERR}; ERR implies a diagnostic on stderr and, for balance/print/transcode/infer/check, "
         "empty stdout; and, when the whole tree is structured, a command that follows includes must not succeed if the "
-        "include graph fails to load (missing/unreadable/unparseable file or a cycle: CliSafe.load_error).  Inside the modelled space the class predicted by the repaired model (Model/CliSafe.v over "
-        "Model/Loader.v) must equal the observed class.  Non-trivial: the command got past flag parsing, i.e. the "
+        "include graph fails to load (missing/unreadable/unparseable file or a cycle: CliSafe.load_error).  Inside the modelled space the class predicted by the repaired model (Model/CliSafe.v and "
+        "Model/CliSafeMore.v - check, print, balance, transcode, weights, returns - over Model/Loader.v) must equal the observed class.  Non-trivial: the command got past flag parsing, i.e. the "
         "observation is not a usage error (approximated: the case is not a flag-family case that ended in ERR); distinct by input.")
 
 TRUSTED_BASE = [
@@ -27,8 +29,11 @@ TRUSTED_BASE = [
     "extraction (ExtrOcamlBasic only), OCaml 4.13.1, drv_c14.ml/drv_journal.ml (decoding of the case line)",
     "harness c14.go: generators, materialisation of the tree, the runner (sh ulimit -v, process-group kill on timeout), "
     "the classification of a run (exit status, 'panic:'/'fatal error:'/'goroutine ' and 'out of memory' on stderr)",
-    "Model/Loader.v is a hand-written model of syntax.parseRec (sequential, document order); Model/CliSafe.v of the patched "
-    "commands; tied to the code only by the predicted-class correspondence of this check",
+    "Model/Loader.v is a hand-written model of syntax.parseRec (sequential, document order); Model/CliSafe.v and "
+    "Model/CliSafeMore.v of the patched commands (check, print, balance; transcode, portfolio weights, portfolio returns); "
+    "tied to the code by the predicted-class correspondence of this check (and, for the output bytes, by C01-C03, C09, C16, C20)",
+    "format and infer: the theorems are about Model/Parser.v, Model/SynPrinter.v, Model/BayesScore.v, tied to the code by the "
+    "checks C07, C08, C15; here the two commands are only run on hostile inputs",
     "the Go runtime: nil dereference, slice bounds, allocation, goroutine leaks, the parser on arbitrary bytes are sampled, not proved",
 ]
 ASSUMPTIONS = [
@@ -43,14 +48,24 @@ TECHNIQUE = ("Coq proof about a hand-written Gallina model (include loader with 
              "under resource limits on generated hostile inputs with the executable specification evaluated on each run")
 LEVEL_TEXT = ("Coq (closed under the global context): C14_load_terminates (repaired loader, every finite file system), "
               "C14_cycle_diverges_pinned(_general) and C14_cycle_is_error, C14_included_error_fails_all, "
-              "C14_included_directive_loaded, C14_invalid_directive_fails_all; C14_no_panic_balance/check/print under the "
-              "explicit guards with iff-lemmas per panicking function and a refuting witness per guard "
-              "(C14_pinned_panics_refuted_*); C14_no_panic_repaired(_fs) for every input; C14_repaired_agrees; "
-              "C14_error_empty_stdout by the result type.  Partial: what only the Go runtime can exhibit is sampled on the "
-              "binary (quick ~600 runs, thorough 60000).")
+              "C14_included_directive_loaded, C14_invalid_directive_fails_all(_more); for each of check, print, balance, "
+              "transcode, portfolio weights, portfolio returns: C14_no_panic_<cmd> under the explicit guards (accrual windows, "
+              "non-negative -m numbers, window start), iff-lemmas per panicking function and command "
+              "(C14_expand/shorten/partition/pf_partition/map_path/query/check/transcode/returns_panics_iff) and a refuting "
+              "witness per guard (C14_pinned_panics_refuted_*); C14_no_panic_repaired(_more)(_fs) for every input; "
+              "C14_repaired_agrees(_more); for format and infer: C14_format_total, C14_infer_total, C14_parse_total (never "
+              "CmdPanic / CmdOutOfFuel / InferBad / ParseFuel, on any byte string; the exit class is a function of 'the files "
+              "parse'); C14_error_empty_stdout(_more)(_syntax) by the result types.  Partial: what only the Go runtime can "
+              "exhibit is sampled on the binary (quick ~600 runs, thorough 60000).")
 LEVEL_NOTE = ("The unconditional statement is false of the pinned code (findings F5 F8 F9 F12 F17 F19) and is proved of the "
-              "repaired model; transcode, infer, format and the portfolio commands, flag parsing (cobra) and the parser are "
-              "not modelled here and only sampled; fuel-bounded recursion of the price graph is excluded by the C12 lemmas.")
+              "repaired model for all seven commands (check, balance, print, transcode, portfolio weights/returns at the "
+              "directive level over the include loader; format and infer at the byte level); flag parsing (cobra, regular "
+              "expressions, dates, --digits) is not modelled and only sampled, and the loading commands start from parsed "
+              "directives (the parser's totality is C14_parse_total / C07); the exit class of transcode, weights and returns "
+              "is compared with the model's inside the modelled flag space like that of check, print, balance; `portfolio "
+              "returns` prints while it processes, so its model describes stdout of successful runs only (the property does "
+              "not list it among the commands whose failure leaves stdout empty); fuel-bounded recursion of the price "
+              "graph is excluded by the C12 lemmas.")
 
 
 def plan(tier, seed):
@@ -85,8 +100,8 @@ def nontrivial(c):
 
 
 def distribution(cases):
-    d = {"by_cmd": {}, "by_class": {}, "predicted": 0, "predicted_err": 0, "trees": {"single": 0, "multi": 0, "cyclic_or_bad": 0},
-         "raw_flag_cases": 0, "signatures": {}}
+    d = {"by_cmd": {}, "by_class": {}, "predicted": 0, "predicted_err": 0, "predicted_by_cmd": {},
+         "trees": {"single": 0, "multi": 0, "cyclic_or_bad": 0}, "raw_flag_cases": 0, "signatures": {}}
     for c in cases:
         parts = (c.input.split(" # ") + ["", ""])[:3]
         d["by_cmd"][parts[0]] = d["by_cmd"].get(parts[0], 0) + 1
@@ -95,6 +110,8 @@ def distribution(cases):
         if c.model and c.model != "-":
             d["predicted"] += 1
             d["predicted_err"] += c.model.startswith("ERR")
+            pc = d["predicted_by_cmd"].setdefault(parts[0], {})
+            pc[c.model] = pc.get(c.model, 0) + 1
         n = len(parts[2].split())
         d["trees"]["single" if n <= 1 else "multi"] += 1
         if re.search(r"(^| )[UDF]:", parts[2]) and n > 1:
